@@ -1,6 +1,8 @@
 package rules
 
 import (
+	"go/types"
+
 	"golang.org/x/tools/go/ssa"
 )
 
@@ -86,6 +88,13 @@ func callerRooted(v ssa.Value, seen map[ssa.Value]bool, depth int) bool {
 	case *ssa.ChangeType:
 		return callerRooted(x.X, seen, depth+1)
 	case *ssa.Convert:
+		// []byte(s) and string(b) allocate
+		if b, ok := x.X.Type().Underlying().(*types.Basic); ok && b.Info()&types.IsString != 0 {
+			return false
+		}
+		if b, ok := x.Type().Underlying().(*types.Basic); ok && b.Info()&types.IsString != 0 {
+			return false
+		}
 		return callerRooted(x.X, seen, depth+1)
 	case *ssa.Extract:
 		// range over a rooted map/slice, lookups: elements of caller memory
@@ -150,6 +159,35 @@ func (c *Ctx) mck8() {
 			}
 		}
 		a.done(0, "every element store, copy and append targets memory allocated by the package itself")
+		// "returned slices are private copies": a byte slice a double hands
+		// out is not the expectation's (or the caller's) own memory
+		if f.Signature.Results().Len() > 0 {
+			r := c.acc("MCK-8", f, "returned-byte-slices-are-private-copies")
+			for _, b := range f.Blocks {
+				for _, ins := range b.Instrs {
+					ret, ok := ins.(*ssa.Return)
+					if !ok {
+						continue
+					}
+					for _, v := range ret.Results {
+						if v.Type().String() != "[]byte" {
+							continue
+						}
+						if k, isK := v.(*ssa.Const); isK && k.Value == nil {
+							r.pass()
+							continue
+						}
+						n++
+						if callerRooted(v, map[ssa.Value]bool{}, 0) {
+							r.failAt(c.P.Pos(ret.Pos()), "%s is returned to the code under test: it is the test author's slice (an expectation, a fixture), so a consumer that works on the message in place — as it may with what ReadSlices returns — edits the fixture, and the next expectation built from it", Expr(v))
+						} else {
+							r.pass()
+						}
+					}
+				}
+			}
+			r.done(0, "every []byte result is allocated by the double (or nil)")
+		}
 	}
 	c.S.Floor("MCK-8", "element stores, copies and appends examined in mqtttest", n, 6)
 }
